@@ -465,9 +465,12 @@ func ruleRD1(c *Ctx) {
 		if ls.Callback == nil {
 			continue
 		}
-		for _, call := range callsTo(ls.Callback, rt) {
-			claimCb = ls.Callback
-			rtCall, _ = call.(*ssa.Call)
+		// the selection may live in the callback or in a private helper holding the section's body
+		for _, g := range append([]*ssa.Function{ls.Callback}, c.unitOf(ls.Callback)...) {
+			for _, call := range callsTo(g, rt) {
+				claimCb = g
+				rtCall, _ = call.(*ssa.Call)
+			}
 		}
 	}
 	if claimCb == nil || rtCall == nil {
@@ -478,7 +481,7 @@ func ruleRD1(c *Ctx) {
 		kind := constStr(rtCall.Call.Args[2])
 		c.check(kind == "task", fn, "kind-is-task", pos, "readyTasks is asked for the constant kind task", "claim asks readyTasks for kind "+c.canon(rtCall.Call.Args[2])+": an epic can be handed out")
 		// epic filter: the entry's parameter, unchanged
-		ep := resolve(rtCall.Call.Args[1])
+		ep := resolveEnv(rtCall.Call.Args[1], c.autoEnv(claimCb))
 		_, isParam := ep.(*ssa.Parameter)
 		c.check(isParam, fn, "epic-filter-unchanged", pos, "the epic filter is the command's parameter, unchanged", "the epic filter passed to readyTasks is "+c.canon(ep)+", not the caller's value")
 		// chosen = element 0
@@ -540,7 +543,8 @@ func ruleRD1(c *Ctx) {
 	}
 	c.check(okKind, fn, "filters-by-kind", c.FnPos(rt), "candidates are filtered by the requested kind", "readyTasks does not filter by the kind parameter")
 	// comparator: a sort.Slice in readyTasks itself, or in a module helper that sorts its slice parameter in place
-	sorts := callsNamed(rt, "sort.Slice", "sort.SliceStable")
+	sortNames := []string{"sort.Slice", "sort.SliceStable", "slices.SortFunc", "slices.SortStableFunc"}
+	sorts := callsNamed(rt, sortNames...)
 	var sortedArg ssa.Value
 	if len(sorts) == 0 {
 		for _, call := range callsIn(rt) {
@@ -548,7 +552,7 @@ func ruleRD1(c *Ctx) {
 			if cal == nil || !c.InModule(cal) || len(cal.Params) == 0 {
 				continue
 			}
-			inner := callsNamed(cal, "sort.Slice", "sort.SliceStable")
+			inner := callsNamed(cal, sortNames...)
 			if len(inner) != 1 {
 				continue
 			}
@@ -566,12 +570,12 @@ func ruleRD1(c *Ctx) {
 		c.bad(fn, "oldest-first-comparator", c.FnPos(rt), fmt.Sprintf("%d sort.Slice calls in readyTasks, expected 1 with the CreatedAt/ID comparator", len(sorts)))
 		return
 	}
-	less, _ := resolve(sorts[0].Common().Args[1]).(*ssa.MakeClosure)
-	if less == nil {
-		c.bad(fn, "oldest-first-comparator", c.Pos(sorts[0].Pos()), "comparator is not a closure")
+	lfs := funcValuesOf(sorts[0].Common().Args[1], 0)
+	if len(lfs) != 1 {
+		c.bad(fn, "oldest-first-comparator", c.Pos(sorts[0].Pos()), "comparator is not a closure or named function")
 		return
 	}
-	lf := less.Fn.(*ssa.Function)
+	lf := lfs[0]
 	before, tie := c.comparatorShape(lf)
 	c.check(before == "Before(i,j)" && tie, fn, "oldest-first-comparator", c.Pos(sorts[0].Pos()),
 		"comparator: CreatedAt.Before(i,j), ties broken by ID(i) < ID(j)",
@@ -622,6 +626,32 @@ func (c *Ctx) comparatorShape(lf *ssa.Function) (primary string, tie bool) {
 			v = strip(v)
 			if cl, ok := v.(*ssa.Call); ok {
 				n := calleeFullName(&cl.Call)
+				// three-way comparators (slices.SortFunc): a.CreatedAt.Compare(b.CreatedAt), cmp.Compare(a.ID, b.ID)
+				if n == "(time.Time).Compare" && len(cl.Call.Args) == 2 {
+					_, f0, ok0 := fieldLoad(cl.Call.Args[0])
+					_, f1, ok1 := fieldLoad(cl.Call.Args[1])
+					if ok0 && ok1 && f0 == "CreatedAt" && f1 == "CreatedAt" {
+						primary = fmt.Sprintf("Before(%s,%s)", side(cl.Call.Args[0]), side(cl.Call.Args[1]))
+					}
+				}
+				if (n == "cmp.Compare" || n == "strings.Compare") && len(cl.Call.Args) == 2 {
+					_, f0, ok0 := fieldLoad(cl.Call.Args[0])
+					_, f1, ok1 := fieldLoad(cl.Call.Args[1])
+					if ok0 && ok1 && f0 == "ID" && f1 == "ID" && side(cl.Call.Args[0]) == "i" && side(cl.Call.Args[1]) == "j" {
+						tie = true
+					}
+				}
+				// a named comparator applied to the same two elements in the same order
+				if h := cl.Call.StaticCallee(); h != nil && c.InModule(h) && h.Blocks != nil && h != lf && len(cl.Call.Args) == 2 && len(h.Params) == 2 &&
+					resolve(cl.Call.Args[0]) == ssa.Value(pi) && resolve(cl.Call.Args[1]) == ssa.Value(pj) {
+					p2, t2 := c.comparatorShape(h)
+					if p2 != "" {
+						primary = p2
+					}
+					if t2 {
+						tie = true
+					}
+				}
 				if (n == "(time.Time).Before" || n == "(time.Time).After") && len(cl.Call.Args) == 2 {
 					_, f0, ok0 := fieldLoad(cl.Call.Args[0])
 					_, f1, ok1 := fieldLoad(cl.Call.Args[1])
@@ -1029,6 +1059,29 @@ func ruleVD4(c *Ctx) {
 				continue
 			}
 			facts := c.domFacts(vci, r.Block())
+			// a predicate helper with several ways to hold (stateForbidsClaim(state)): each way is an alternative set of
+			// facts; the state constants of all alternatives count for this return
+			for _, bf := range branchFacts(vci) {
+				if len(bf.Alts) == 0 || !mustPassEdges(vci, r.Block(), map[edge]bool{bf.E: true}) {
+					continue
+				}
+				for _, alt := range bf.Alts {
+					for _, fa := range alt {
+						curEnv = fa.A.Env
+						if c.seenThrough(fa.A) {
+							continue
+						}
+						tf := "F"
+						if fa.Holds {
+							tf = "T"
+						}
+						if fa.A.Kind == "const" && fa.Holds {
+							facts[c.atomLabel(fa.A)+":"+tf] = true
+						}
+					}
+				}
+				curEnv = nil
+			}
 			// which state constants (P==x:T) and which claim polarity (P==:T means claimedBy=="")
 			var states []string
 			claimEmpty, claimSet := false, false
